@@ -24,6 +24,7 @@ TRUSTED = {
     'json': 'json.dumps/loads and yaml.dump/safe_load are inverse to each other on trees of dict[str,..], list, str, bool, int, finite float and reject complex numbers (DESIGN sec. 4)',
     'frame': 'the FRAME rules of pyvc/frame.py (which expressions allocate, which calls mutate) are a hand-written model of Python/numpy aliasing; numpy basic indexing is treated as a view, library calls not listed as allocating are treated as returning shared objects',
     'schemdraw': 'schemdraw 0.19 is replaced by the interface model pyvc/schemdraw_model.py: constructor keywords are kept in _userparams, placement/styling methods have no effect on the netlist logic, terminal points of a placed element are absanchors[start/end] (given by the contracts), Point is a pair; placement geometry is covered only by the real-schemdraw stand-in',
+    'sympy': 'sympy 1.14 exact symbolic integration / summation / simplification of polynomial-times-exponential integrands (Fourier-integral lemma of C08): a computer-algebra computation, trusted, not a kernel-checked proof',
     'lean': 'Lean 4.33 kernel + Mathlib for spec-level lemmas (axioms: propext, Classical.choice, Quot.sound)',
 }
 
